@@ -478,6 +478,13 @@ func c07Exec(raw json.RawMessage) Result {
 
 	results := []any{}
 	relogged := 0
+	type callerSlice struct {
+		step int
+		kind string
+		full []zapcore.Field
+		mine []zapcore.Field
+	}
+	var callerSlices []callerSlice
 	for si, st := range op.Steps {
 		var par c07Node
 		var opar *oNode
@@ -604,6 +611,7 @@ func c07Exec(raw json.RawMessage) Result {
 			panic("step " + st.S)
 		}
 		if mine != nil {
+			callerSlices = append(callerSlices, callerSlice{si, st.S, fs[:cap(fs)], mine})
 			full := fs[:cap(fs)]
 			for i := range full {
 				if full[i].Type != mine[i].Type || full[i].Key != mine[i].Key || full[i].Integer != mine[i].Integer ||
@@ -642,6 +650,17 @@ func c07Exec(raw json.RawMessage) Result {
 			}
 			check(si, opar, st.L, call, seq, obs)
 			relogged++
+		}
+	}
+	// the slices stay the caller's for good: a lazy logger's first use (or any later call) must not touch them either
+	for _, cs := range callerSlices {
+		for i := range cs.full {
+			if cs.full[i].Type != cs.mine[i].Type || cs.full[i].Key != cs.mine[i].Key || cs.full[i].Integer != cs.mine[i].Integer ||
+				cs.full[i].String != cs.mine[i].String || cs.full[i].Interface != cs.mine[i].Interface {
+				fail(bad("C07:caller-slice-modified", "the field slice passed at step %d (%s) reads %s/%q at element %d after the later calls of the program, was %s/%q",
+					cs.step, cs.kind, fmt.Sprint(cs.full[i].Type), cs.full[i].Key, i, fmt.Sprint(cs.mine[i].Type), cs.mine[i].Key))
+				break
+			}
 		}
 	}
 	if leaf, was, now, same := w.recheckKept(); !same {
